@@ -391,6 +391,23 @@ func catalogue() []*deviant {
 		s := info.Size() + 1
 		return fakeInfo{FileInfo: info, size: &s}, nil, true
 	}})
+	// the same through an open handle: File.Stat() alone is wrong
+	add(&deviant{name: "fstat-wrong-perm", fstat: func(f hackpadfs.File) (hackpadfs.FileInfo, error, bool) {
+		info, err := f.Stat()
+		if err != nil || info.IsDir() {
+			return nil, nil, false
+		}
+		m := info.Mode() ^ 0o022
+		return fakeInfo{FileInfo: info, mode: &m}, nil, true
+	}})
+	add(&deviant{name: "fstat-wrong-name", fstat: func(f hackpadfs.File) (hackpadfs.FileInfo, error, bool) {
+		info, err := f.Stat()
+		if err != nil {
+			return nil, nil, false
+		}
+		n := info.Name() + "x"
+		return fakeInfo{FileInfo: info, name: &n}, nil, true
+	}})
 	add(&deviant{name: "stat-wrong-name", stat: func(fs *mem.FS, n string) (hackpadfs.FileInfo, error, bool) {
 		info, err := fs.Stat(n)
 		if err != nil {
